@@ -62,13 +62,18 @@ PROPOSED_KNOWN = (
 
 
 def mc(ctx, wd):
-    consts = {"MaxNodes": ctx.pick(3, 4), "MaxList": 2, "ChildFields": ctx.pick(1, 1)}
+    cfgs = [{"MaxNodes": 3, "MaxList": 2, "ChildFields": 1}] if ctx.quick else \
+           [{"MaxNodes": 4, "MaxList": 2, "ChildFields": 1}, {"MaxNodes": 3, "MaxList": 2, "ChildFields": 2}]
     invs = ["WalkIsPreOrder", "WalkEachOnce", "CloneAccepted", "ShallowRejected", "DroppedRejected", "Bounded"]
-    rig.write_cfg(wd / "MC_AstTree.cfg", constants=consts, invariants=invs)
-    r = ctx.tlc(wd, "MC_AstTree", workers=rig.NCPU, timeout=1700, coverage=not ctx.quick, must_pass=True)
-    ctx.cov.update(states=r.distinct, transitions=r.generated, mc_wall_s=round(r.wall, 1), mc_invariants=invs, bounds=json.dumps(consts))
+    distinct, generated, wall, never = 0, 0, 0.0, []
+    for consts in cfgs:
+        rig.write_cfg(wd / "MC_AstTree.cfg", constants=consts, invariants=invs)
+        r = ctx.tlc(wd, "MC_AstTree", workers=rig.NCPU, timeout=1700, coverage=not ctx.quick, must_pass=True)
+        distinct, generated, wall = distinct + r.distinct, generated + r.generated, wall + r.wall
+        never += r.coverage_zero() if not ctx.quick else []
+    ctx.cov.update(states=distinct, transitions=generated, mc_wall_s=round(wall, 1), mc_invariants=invs, bounds=json.dumps(cfgs))
     if not ctx.quick:
-        ctx.cov["actions_never_taken"] = r.coverage_zero()
+        ctx.cov["actions_never_taken"] = sorted(set(never))
 
 
 def judge(ctx, step, obs):
@@ -167,7 +172,9 @@ def run(ctx, only=None):
         rig.write_ndjson(cc, [c for c in rig.read_ndjson(cf) if c["name"] in names])
         co = ctx.work / "confirm_obs.ndjson"
         ctx.drive("c28", cc, co)
-        again = groups_of([b for b in judge(ctx, "confirm", rig.read_ndjson(co)) if b["cls"] == "violation"])
+        want = {(x["obs"]["tree"], x["obs"]["sub"], x["obs"]["api"]) for x in g.values()}
+        cobs = [o for o in rig.read_ndjson(co) if (o["tree"], o["sub"], o["api"]) in want]
+        again = groups_of([b for b in judge(ctx, "confirm", cobs) if b["cls"] == "violation"])
         ctx.cov["unreproduced"] = len(set(g) - set(again))
         for k, x in g.items():
             if k in again:
